@@ -1,15 +1,30 @@
 import JL.Generated.Fns
+import JL.Lemmas.TieLoops
 import JL.Tie.deep_eq
 /-! tie: `in_`, as translated from the crate's current source, is the model's function - for every input -/
 namespace JL.Tie
-open JL
+open JL JL.Lemmas.TieLoops
+set_option linter.unusedSimpArgs false  -- which of the listed facts are used depends on how the source is spelled
 
+/- by the model's own case analysis (kind of the haystack, kind of the needle); the search through an array haystack may be
+`iter().any(..)`, a `for` loop with a flag (with or without `break`) or a `for` loop that returns at the first hit: `rs_loop_any` brings each to the model's `List.any` -/
 theorem in_ (needle haystack : Json) : Gen.in_ [needle, haystack] = (ArrOp.in_ needle haystack).map Json.bool := by
   unfold Gen.in_ ArrOp.in_
   have h0 : Rs.index [needle, haystack] 0 = needle := rfl
   have h1 : Rs.index [needle, haystack] 1 = haystack := rfl
   simp only [h0, h1]
-  cases haystack <;> simp [rs, deep_eq]
-  cases needle <;> simp
+  cases haystack with
+  | null => first | rfl | simp [rs]
+  | bool b => first | rfl | simp [rs]
+  | num n => first | rfl | simp [rs]
+  | obj kvs => first | rfl | simp [rs]
+  | str h => cases needle <;> first | rfl | simp [rs]
+  | arr possibles =>
+      rs_loop_any_ret (fun p => ArrOp.deepEq p needle) (some (Json.bool true)) =>
+        intro x; cases h : ArrOp.deepEq x needle <;> simp [rs, deep_eq, h]
+      all_goals first
+        | rfl
+        | (simp [rs]; done)
+        | (cases hany : List.any possibles (fun p => ArrOp.deepEq p needle) <;> simp [rs, hany])
 
 end JL.Tie
